@@ -97,6 +97,13 @@ Proof.
   apply evolves_set_nth. apply (nth_error_nth' _ _ _ _ dummy) in E. destruct E as [-> _]. apply kill_proc_pev.
 Qed.
 
+Lemma die_polled_evolves i ws : evolves ws (die_polled i ws).
+Proof.
+  unfold die_polled. destruct (nth_error ws i) eqn:E; auto using evolves_refl.
+  apply evolves_set_nth. apply (nth_error_nth' _ _ _ _ dummy) in E. destruct E as [-> _].
+  unfold pev, reap_proc. destruct p as [q []]; simpl; auto.
+Qed.
+
 Lemma is_alive_spec w al w' :
   is_alive w = (al, w') ->
   pev w w' /\ (al = true -> pst w = Live /\ w' = w) /\ (al = false -> pst w <> Live /\ pst w' = Reaped).
@@ -106,7 +113,7 @@ Qed.
 
 (* ------------------------------------------------------------------ deliver *)
 Definition sigq (evs : list event) : list action :=
-  flat_map (fun e => match e with Die _ => [] | Hup | FileChange => [ReloadAll] | Int | Term => [Shutdown] end) evs.
+  flat_map (fun e => match e with Die _ | DieS _ => [] | Hup | FileChange => [ReloadAll] | Int | Term => [Shutdown] end) evs.
 
 Lemma deliver_spec evs : forall st,
   evolves (workers st) (workers (deliver st evs)) /\ queue (deliver st evs) = queue st ++ sigq evs /\
@@ -116,8 +123,19 @@ Proof.
   - rewrite app_nil_r. auto using evolves_refl.
   - destruct (IH (deliver1 st e)) as (A & B & C & D). fold (deliver (deliver1 st e) evs).
     rewrite B, C, D. destruct e; simpl in *; rewrite <- ?app_assoc; simpl; repeat split; auto.
-    eapply evolves_trans; [apply die_evolves | exact A].
+    + eapply evolves_trans; [apply die_evolves | exact A].
+    + eapply evolves_trans; [apply die_polled_evolves | exact A].
 Qed.
+
+Lemma sigq_unpolled evs : sigq (filter unpolled evs) = sigq evs.
+Proof.
+  unfold sigq. induction evs as [|e evs IH]; simpl; auto. destruct e; simpl; rewrite ?IH; auto.
+Qed.
+
+Lemma deliver_np_spec evs st :
+  evolves (workers st) (workers (deliver_np st evs)) /\ queue (deliver_np st evs) = queue st ++ sigq evs /\
+  restarts (deliver_np st evs) = restarts st /\ next_pid (deliver_np st evs) = next_pid st.
+Proof. unfold deliver_np. rewrite <- (sigq_unpolled evs). apply deliver_spec. Qed.
 
 Lemma sigq_no_one evs i b : ~ In (ReloadOne i b) (sigq evs).
 Proof.
@@ -198,7 +216,7 @@ Proof.
   induction idxs as [|k ks IH]; intros st aevs; simpl.
   - repeat split; auto using evolves_refl. exists []. rewrite app_nil_r; split; auto. intros ? ? [].
   - destruct (pop aevs) as [ev aevs'].
-    destruct (deliver_spec ev st) as (A & B & C & D). set (st1 := deliver st ev) in *.
+    destruct (deliver_np_spec ev st) as (A & B & C & D). set (st1 := deliver_np st ev) in *.
     destruct (is_alive (nth k (workers st1) dummy)) as [al w'] eqn:EA.
     apply is_alive_spec in EA. destruct EA as (PV & _ & _).
     set (st2 := set_workers st1 (set_nth k w' (workers st1))).
@@ -241,7 +259,7 @@ Proof.
   - intro H; inversion H; subst. repeat split; auto using evolves_refl. exists []; simpl; rewrite app_nil_r; auto.
   - destruct (pid (nth k (workers st) dummy) =? 0); [apply IH|].
     destruct (pop aevs) as [ev aevs'].
-    destruct (deliver_spec ev st) as (A & B & C & D). set (st1 := deliver st ev) in *.
+    destruct (deliver_np_spec ev st) as (A & B & C & D). set (st1 := deliver_np st ev) in *.
     destruct (is_alive (nth k (workers st1) dummy)) as [al w'] eqn:EA.
     apply is_alive_spec in EA. destruct EA as (PV & T & F).
     set (st2 := set_workers st1 (set_nth k w' (workers st1))).
